@@ -153,6 +153,7 @@ func (s *Sorts) sliceSort(elem types.Type) string {
 	s.slices[n] = elem
 	s.decls = append(s.decls, fmt.Sprintf(
 		"(declare-datatypes ((%s 0)) (((mk_%s (arr_%s (Array Int %s)) (len_%s Int) (nil_%s Bool)))))", n, n, n, es, n, n))
+	// well-formedness of slice values read from memory is assumed where they are loaded (see assumeWF)
 	return n
 }
 
